@@ -78,6 +78,10 @@ macro_rules! tiny_cells {
         $cb!($group, b_kk, $body, [], 1);
         $cb!($group, w_p, $body, [P], 0);
         $cb!($group, b_p, $body, [P], 1);
+        $cb!($group, w_n, $body, [N], 0);
+        $cb!($group, b_n, $body, [N], 1);
+        $cb!($group, w_b, $body, [B], 0);
+        $cb!($group, b_b, $body, [B], 1);
         $cb!($group, w_r, $body, [R], 0);
         $cb!($group, b_r, $body, [R], 1);
         $cb!($group, w_q, $body, [Q], 0);
